@@ -483,6 +483,15 @@ func coreCompositions() []Prog {
 	add("mul_twice", "quick", ff, []Step{S("mul", in(0), in(1)), S("mul", in(1), in(0)), S("add", sref(0, 0), sref(1, 0))}, []OutRef{{2, 0}}, nil)
 	add("mul_rescaled", "quick", ff, []Step{S("mul", in(0), in(1)), S("mul", in(0), c(3)), S("mul", sref(1, 0), in(1)), S("sub", sref(2, 0), sref(0, 0))}, []OutRef{{3, 0}}, nil)
 	add("mul_neg_rescaled", "quick", ff, []Step{S("mul", in(0), in(1)), S("neg", in(0)), S("mul", sref(1, 0), in(1)), S("add", sref(2, 0), sref(0, 0), c(7))}, []OutRef{{3, 0}}, nil)
+	// the sparse builder's addition cache: first sum with / without a constant, second one with equal,
+	// proportional or negated coefficients, with / without a constant
+	add("addcache_k_then_prop", "quick", ff, []Step{S("add", in(0), in(1), c(5)), S("mul", in(0), c(2)), S("mul", c(2), in(1)), S("add", sref(1, 0), sref(2, 0))}, []OutRef{{0, 0}, {3, 0}}, nil)
+	add("addcache_k_then_same", "quick", ff, []Step{S("add", in(0), in(1), c(5)), S("add", in(0), in(1))}, []OutRef{{0, 0}, {1, 0}}, nil)
+	add("addcache_k_then_same_k2", "quick", ff, []Step{S("add", in(0), in(1), c(5)), S("add", in(0), in(1), c(7))}, []OutRef{{0, 0}, {1, 0}}, nil)
+	add("addcache_then_prop_k", "quick", ff, []Step{S("add", in(0), in(1)), S("mul", in(0), c(3)), S("mul", c(3), in(1)), S("add", sref(1, 0), sref(2, 0), c(4))}, []OutRef{{0, 0}, {3, 0}}, nil)
+	add("addcache_subk_then_neg", "quick", ff, []Step{S("sub", in(0), in(1), c(3)), S("sub", in(1), in(0))}, []OutRef{{0, 0}, {1, 0}}, nil)
+	add("addcache_k_then_prop_k", "quick", ff, []Step{S("add", in(0), in(1), c(5)), S("mul", in(0), c(2)), S("mul", c(2), in(1)), S("add", sref(1, 0), sref(2, 0), c(10))}, []OutRef{{0, 0}, {3, 0}}, nil)
+	add("mulcache_then_scaled", "quick", ff, []Step{S("mul", in(0), in(1)), S("mul", in(0), c(3)), S("mul", sref(1, 0), in(1)), S("mul", in(1), in(0), c(46))}, []OutRef{{0, 0}, {2, 0}, {3, 0}}, nil)
 	add("add_const_fold", "quick", ff, []Step{S("add", in(0), c(5)), S("add", sref(0, 0), c(46)), S("add", sref(1, 0), in(1), c(43)), S("mul", sref(2, 0), sref(2, 0))}, []OutRef{{3, 0}}, nil)
 	add("sub_self", "quick", ff, []Step{S("sub", in(0), in(0)), S("add", sref(0, 0), in(1)), S("mul", sref(1, 0), in(0))}, []OutRef{{2, 0}}, nil)
 	add("sub_self_iszero", "quick", ff, []Step{S("sub", in(0), in(0)), S("iszero", sref(0, 0))}, []OutRef{{1, 0}}, nil)
